@@ -167,7 +167,7 @@ Proof.
 Qed.
 
 Lemma mark_items_marks da bl : forallb is_mark (mark_items da bl) = true.
-Proof. induction bl as [|[id|id|] r IH]; cbn; auto. Qed.
+Proof. induction bl as [|[id|id|id|id|] r IH]; cbn; auto. Qed.
 
 Lemma mark_items_cons da x r : mark_items da (x :: r) = mark_items da [x] ++ mark_items da r.
 Proof. unfold mark_items. cbn [flat_map]. rewrite app_nil_r. reflexivity. Qed.
@@ -177,14 +177,14 @@ Lemma marks_added : forall bl s da x, In x bl ->
   match x with
   | BH id => mget (hm (run_from s (mark_items da bl))) id <> None
   | BD id => mget (dm (run_from s (mark_items da bl))) id <> None
-  | BJ => True
+  | _ => True
   end.
 Proof.
   induction bl as [|y r IH]; intros s da x Hin; [destruct Hin|].
   rewrite mark_items_cons, run_from_app.
   destruct Hin as [->|Hin]; [|apply IH, Hin].
   destruct (run_marks (mark_items da r) (run_from s (mark_items da [x])) (mark_items_marks da r)) as (_ & _ & C & D).
-  destruct x as [id|id|]; [apply C|apply D|exact I]; cbn; rewrite N.eqb_refl; discriminate.
+  destruct x as [id|id|id|id|]; [apply C|apply D|exact I|exact I|exact I]; cbn; rewrite N.eqb_refl; discriminate.
 Qed.
 
 Lemma in_mark_items da bl i :
@@ -196,7 +196,7 @@ Lemma in_mark_items da bl i :
   end.
 Proof.
   unfold mark_items. intros H. apply in_flat_map in H as (x & Hx & Hi).
-  destruct x as [id|id|]; cbn in Hi; try destruct Hi as [<-|[]]; try (split; [reflexivity | exact Hx]). destruct Hi.
+  destruct x as [id|id|id|id|]; cbn in Hi; try destruct Hi as [<-|[]]; try (split; [reflexivity | exact Hx]); destruct Hi.
 Qed.
 
 (* ---- the invariant of a full node ------------------------------------------------------------------- *)
@@ -204,7 +204,7 @@ Definition marked (s : fnode) (x : blob) : Prop :=
   match x with
   | BH id => mget (hm (nd s)) id <> None
   | BD id => mget (dm (nd s)) id <> None
-  | BJ => True
+  | _ => True
   end.
 
 Record FInv (s : fnode) : Prop := {
@@ -440,3 +440,105 @@ Theorem fullnode_safety : forall b h, let s := nd (frun b h) in
   asked_before (tr s) /\ persisted_before (tr s) /\
   kd s = rep s.
 Proof. intros b h. cbn zeta. rewrite fullnode_refines. apply safety. Qed.
+
+(* ---- an adversarial DA layer: forged copies of headers / signed data are so much junk ------------------ *)
+(* [unforge] replaces every forged copy by an arbitrary byte string.  Nothing the node does or reports depends on
+   the difference, whatever it has seen, applied or marked before: a forged copy marks nothing, moves the cursor
+   exactly as junk does, and the DA-included height, the effect log, the metadata and the caches are the same. *)
+Definition unforge_listing (l : listing) : listing :=
+  match l with LBlobs bl => LBlobs (map unforge bl) | _ => l end.
+Definition unforge_pres (p : pres) : pres :=
+  match p with PAdv bl => PAdv (map unforge bl) | PStay => PStay end.
+
+Lemma mark_items_unforge da bl : mark_items da (map unforge bl) = mark_items da bl.
+Proof.
+  induction bl as [|x r IH]; [reflexivity|].
+  cbn [map]. rewrite (mark_items_cons da (unforge x)), (mark_items_cons da x), IH.
+  destruct x; reflexivity.
+Qed.
+
+Lemma proc_unforge : forall n l fs, proc n (unforge_listing l) fs = unforge_pres (proc n l fs).
+Proof.
+  induction n as [|n IH]; intros l fs; [reflexivity|].
+  cbn [proc]. destruct fs as [|[fut|nf fut] r].
+  - destruct l; reflexivity.
+  - destruct fut; [reflexivity | apply IH].
+  - destruct l; cbn [unforge_listing honest unforge_pres]; try reflexivity.
+    destruct fut; [reflexivity | apply (IH (LBlobs bl))].
+Qed.
+
+Lemma content_unforge d h : content (map (map unforge) d) h = map unforge (content d h).
+Proof.
+  unfold content. destruct (h =? 0); [reflexivity|].
+  change (@nil blob) with (map unforge []) at 1. apply map_nth.
+Qed.
+
+(* the two runs side by side *)
+Definition unforged (s s' : fnode) : Prop :=
+  nd s' = nd s /\ cur s' = cur s /\ sdah s' = sdah s /\ dal s' = map (map unforge) (dal s).
+
+Lemma listing_unforged s s' : unforged s s' -> listing_at s' = unforge_listing (listing_at s).
+Proof.
+  intros (_ & Hc & _ & Hd). unfold listing_at, top. rewrite Hd, Hc, map_length, content_unforge.
+  destruct (N.of_nat (length (dal s)) <? cur s); [reflexivity|].
+  destruct (content (dal s) (cur s)); reflexivity.
+Qed.
+
+Lemma items_unforged s s' i : unforged s s' -> items_of s' (unforge_item i) = items_of s i.
+Proof.
+  intros U. destruct i; try reflexivity.
+  cbn [unforge_item items_of]. unfold scan_res. rewrite (listing_unforged _ _ U), proc_unforge.
+  destruct U as (_ & Hc & _). rewrite Hc.
+  destruct (proc retries (listing_at s) fs); cbn [unforge_pres]; [reflexivity | apply mark_items_unforge].
+Qed.
+
+Lemma fstep_unforged s s' i : unforged s s' -> unforged (fstep s i) (fstep s' (unforge_item i)).
+Proof.
+  intros U. pose proof (items_unforged _ _ i U) as Hi.
+  assert (Hn : nd (fstep s' (unforge_item i)) = nd (fstep s i)).
+  { rewrite !fstep_nd, Hi. destruct U as (-> & _). reflexivity. }
+  pose proof U as (Un & Uc & Us & Ud).
+  split; [exact Hn|].
+  destruct i; cbn [unforge_item fstep cur sdah dal]; repeat split; try assumption.
+  - rewrite Ud, map_app. reflexivity.
+  - unfold scan_res. rewrite (listing_unforged _ _ U), proc_unforge, Uc.
+    destruct (proc retries (listing_at s) fs); reflexivity.
+Qed.
+
+Lemma frun_from_unforged : forall h s s', unforged s s' ->
+  unforged (frun_from s h) (frun_from s' (map unforge_item h)).
+Proof.
+  induction h as [|i h IH]; intros s s' U; [exact U|].
+  unfold frun_from in *. cbn [map fold_left]. apply IH, fstep_unforged, U.
+Qed.
+
+Theorem forged_blobs_are_junk : forall b h,
+  let s := frun b h in let s' := frun b (map unforge_item h) in
+  nd s' = nd s /\ cur s' = cur s /\ sdah s' = sdah s /\ dal s' = map (map unforge) (dal s).
+Proof.
+  intros b h. cbn zeta. apply (frun_from_unforged h (finit b) (finit b)).
+  repeat split; reflexivity.
+Qed.
+
+(* a header mark never comes from a forged copy: where a mark event names DA height da, the GENUINE blob is there
+   (BF id / BG id are other constructors than BH id / BD id) — and a DA height that holds only forged copies of a
+   header leaves it unmarked *)
+Lemma mark_items_forged_only da bl : forallb is_forged bl = true -> mark_items da bl = [].
+Proof.
+  induction bl as [|x r IH]; [reflexivity|]. cbn [forallb]. intros H. apply andb_true_iff in H as (Hx & Hr).
+  rewrite mark_items_cons, (IH Hr). destruct x; try discriminate Hx; reflexivity.
+Qed.
+
+Theorem forged_only_height_marks_nothing : forall b h fs, let s := frun b h in
+  forallb is_forged (content (dal s) (cur s)) = true ->
+  nd (fstep s (FScan fs)) = nd s.
+Proof.
+  intros b h fs s Hf. rewrite fstep_nd. cbn [items_of]. unfold scan_res.
+  destruct (proc retries (listing_at s) fs) as [|bl] eqn:E; [reflexivity|].
+  apply proc_adv in E. unfold listing_at in E.
+  destruct (top s <? cur s); [destruct E as [(E & _)|E]; discriminate E|].
+  destruct (content (dal s) (cur s)) as [|x r] eqn:Ec.
+  - destruct E as [(_ & ->)|E]; [reflexivity | discriminate E].
+  - destruct E as [(E & _)|E]; [discriminate E|]. injection E as <-.
+    rewrite (mark_items_forged_only _ _ Hf). reflexivity.
+Qed.
